@@ -14,7 +14,7 @@
 (* by id, then queueing vehicles by (enqueue time, id); the order is fixed *)
 (* once, as perform_vehicle_state_updates does) -> tick.                   *)
 (***************************************************************************)
-EXTENDS HiveProps
+EXTENDS HiveProps, Json
 
 CONSTANTS
   Vehicles,      \* set of vehicle ids (strings)
@@ -28,10 +28,14 @@ CONSTANTS
   MaxT,          \* number of steps explored
   MoveCosts, IdleCosts,   \* subsets of 0..1: energy a move / an idle step may cost
   Kinds,         \* instruction kinds the adversary may issue
-  BogusTargets   \* ids of non-existent entities the adversary may also name
+  BogusTargets,  \* ids of non-existent entities the adversary may also name
+  RecordHist     \* TRUE: keep the controller's choices in `hist` (simulation mode, schedule export)
 
-VARIABLES veh, st, bs, req, seen, now, ph, todo, order
-vars == <<veh, st, bs, req, seen, now, ph, todo, order>>
+VARIABLES veh, st, bs, req, seen, now, ph, todo, order, hist
+vars == <<veh, st, bs, req, seen, now, ph, todo, order, hist>>
+
+\* the controller's / environment's choices, exported as schedules for the real code (never read by any action)
+Log(rec) == hist' = IF RecordHist THEN Append(hist, rec) ELSE hist
 
 S0 == [veh |-> veh, st |-> st, bs |-> bs, req |-> req, now |-> now]
 S1 == [veh |-> veh', st |-> st', bs |-> bs', req |-> req', now |-> now']
@@ -56,7 +60,7 @@ Init ==
         tot |-> BsDef[b].tot, stall |-> BsDef[b].tot, st |-> BsDef[b].st]]
   /\ req = <<>>
   /\ seen = {}
-  /\ now = 0 /\ ph = "pre" /\ todo = Vehicles /\ order = <<>>
+  /\ now = 0 /\ ph = "pre" /\ todo = Vehicles /\ order = <<>> /\ hist = <<>>
 
 Commit(S) == veh' = S.veh /\ st' = S.st /\ bs' = S.bs /\ req' = S.req
 
@@ -70,16 +74,18 @@ Admit(r) ==
   /\ ph = "pre" /\ r \notin seen
   /\ seen' = seen \cup {r}
   /\ req' = [x \in DOMAIN req \cup {r} |-> IF x = r THEN NewReq(r) ELSE req[x]]
+  /\ Log([a |-> "admit", r |-> r, t |-> now])
   /\ UNCHANGED <<veh, st, bs, now, ph, todo, order>>
 
 Cancel(r) ==
   /\ ph = "pre" /\ r \in DOMAIN req
   /\ req' = [x \in DOMAIN req \ {r} |-> req[x]]
+  /\ Log([a |-> "cancel", r |-> r, t |-> now])
   /\ UNCHANGED <<veh, st, bs, seen, now, ph, todo, order>>
 
 StartInstr ==
   /\ ph = "pre" /\ ph' = "instr" /\ todo' = Vehicles
-  /\ UNCHANGED <<veh, st, bs, req, seen, now, order>>
+  /\ UNCHANGED <<veh, st, bs, req, seen, now, order, hist>>
 
 -----------------------------------------------------------------------------
 (* instructions: the route an Instruction computes runs from the vehicle to the target; it is empty  *)
@@ -123,12 +129,13 @@ Instruct ==
   /\ ph = "instr" /\ todo # {}
   /\ LET v == MaxRank(todo) IN
        /\ todo' = todo \ {v}
-       /\ \/ UNCHANGED <<veh, st, bs, req>>                                  \* no instruction for v
+       /\ \/ UNCHANGED <<veh, st, bs, req, hist>>                            \* no instruction for v
           \/ \E i \in Instructions :
-               IF InstructionInvalid(S0, v, i) THEN UNCHANGED <<veh, st, bs, req>>
-               ELSE LET R == TransOp(S0, v, NextOf(S0, v, i)) IN
-                    IF R.ok THEN Commit([R.S EXCEPT !.veh[v].hop = 0])
-                    ELSE UNCHANGED <<veh, st, bs, req>>
+               /\ Log([a |-> "instr", v |-> v, kind |-> i.kind, tgt |-> i.tgt, plug |-> i.plug, t |-> now])
+               /\ IF InstructionInvalid(S0, v, i) THEN UNCHANGED <<veh, st, bs, req>>
+                  ELSE LET R == TransOp(S0, v, NextOf(S0, v, i)) IN
+                       IF R.ok THEN Commit([R.S EXCEPT !.veh[v].hop = 0])
+                       ELSE UNCHANGED <<veh, st, bs, req>>
   /\ UNCHANGED <<seen, now, ph, order>>
 
 -----------------------------------------------------------------------------
@@ -147,7 +154,7 @@ OrderSeq ==
 StartUpdate ==
   /\ ph = "instr" /\ todo = {}
   /\ ph' = "upd" /\ order' = OrderSeq
-  /\ UNCHANGED <<veh, st, bs, req, seen, now, todo>>
+  /\ UNCHANGED <<veh, st, bs, req, seen, now, todo, hist>>
 
 (* numeric outcomes of an update, as (prm, energy after) choices *)
 WillMove(S, v) ==     \* the activity performed after a possible default transition moves along a route
@@ -183,12 +190,12 @@ Update ==
          IF R.ok THEN Commit(IF c.mv = "oos" THEN R.S ELSE ApplyNumeric(R.S, v, c))
          ELSE UNCHANGED <<veh, st, bs, req>>
   /\ order' = Tail(order)
-  /\ UNCHANGED <<seen, now, ph, todo>>
+  /\ UNCHANGED <<seen, now, ph, todo, hist>>
 
 Tick ==
   /\ ph = "upd" /\ order = <<>>
   /\ ph' = "pre" /\ now' = now + 1 /\ todo' = Vehicles
-  /\ UNCHANGED <<veh, st, bs, req, seen, order>>
+  /\ UNCHANGED <<veh, st, bs, req, seen, order, hist>>
 
 Next ==
   \/ \E r \in Requests : Admit(r) \/ Cancel(r)
@@ -197,6 +204,9 @@ Next ==
 Spec == Init /\ [][Next]_vars
 
 TimeBound == now < MaxT \/ (now = MaxT /\ ph = "pre" /\ todo = Vehicles)
+
+\* simulation mode: print the controller's choices of every behaviour when it reaches the depth bound
+ExportAt(D) == TLCGet("level") < D \/ PrintT(<<"BEH", ToJson(hist)>>)
 
 -----------------------------------------------------------------------------
 (* properties *)
